@@ -83,7 +83,7 @@ Qed.
 Section EnvProofs.
 Context {env state : Type}.
 Variable e_step : env -> state -> list Z -> state * trans.
-Variable e_reset : env -> state -> option Z -> state * (dict obs_t * dict info_t).
+Variable e_reset : env -> state -> rarg -> state * (dict obs_t * dict info_t).
 Variable e_kind : env -> okind.
 Variable e_live : state -> list nat.
 (* contract of the environment: its termination / truncation flags say that every listed agent has
@@ -100,7 +100,7 @@ Proof.
   pose proof (C_done E s acts) as H.
   destruct (e_step E s acts) as [s1 tr]. cbn [fst snd] in H. rewrite H.
   destruct (g_no_agent_left e_live s1).
-  - destruct (e_reset E s1 None) as [s2 [o i]]. reflexivity.
+  - destruct (e_reset E s1 no_rarg) as [s2 [o i]]. reflexivity.
   - destruct tr; reflexivity.
 Qed.
 
@@ -169,7 +169,7 @@ Proof. apply (g_wrapper_same_condition raw_step env_reset live all_done_keys_spe
 Theorem autoreset_first_obs_lemma E agents s acts a :
   no_agent_left (fst (raw_step E s acts)) = true -> In a agents -> a < nag E ->
   let r := worker_step E agents s acts in
-  fst r = fst (env_reset E (fst (raw_step E s acts)) None) /\
+  fst r = fst (env_reset E (fst (raw_step E s acts)) no_rarg) /\
   ord (fst r) = S (ord s) /\ tm (fst r) = 0 /\
   get a (tobs (snd r)) [] = observe E (fst r) a 0%Z.
 Proof.
